@@ -435,6 +435,21 @@ fn pair_grid(ns: &[usize]) -> Vec<Case> {
     v
 }
 
+/// Deterministic pseudo-random byte strings pushed through `case_from_bytes` (the decoder a libFuzzer target
+/// will use): shows the decoder is total and that decoded cases run through the same oracle.
+fn byte_cases(count: usize) -> Vec<Case> {
+    let mut rng = vengine::gen::SplitMix(0xC02);
+    let mut v = vec![];
+    for i in 0..count {
+        let len = 6 + (i % 97);
+        let bytes: Vec<u8> = (0..len).map(|_| (rng.next_u64() >> 32) as u8).collect();
+        if let Some(c) = case_from_bytes(&bytes) {
+            v.push(c);
+        }
+    }
+    v
+}
+
 pub fn property() -> Property {
     Property {
         id: "C02",
@@ -457,6 +472,8 @@ pub fn property() -> Property {
             "target_iter only on 2-D targets (the code documents that branch as 2-D only); into_single_target only with exactly one target column (documented panic otherwise); bootstrap only on non-empty datasets and with >= 1 feature column requested (empty range / untagged rows)".into(),
             "owned split_with_ratio on column-major data is a documented panic: the interpreter takes view().split_with_ratio there".into(),
             "one_vs_all order of labels is unspecified (HashSet); compared as a set. label_count() of every returned dataset is compared with a recount of the targets it returns".into(),
+            "a panic of ndarray 0.15's own debug assertion (`can_index_slice` inside to_owned/map/select, active only because the harness builds with debug assertions) on a dataset with ZERO samples that was sliced out of a larger array (empty half of a split, empty chunk) is not attributed to linfa: the history ends there, counted in class ndarray_debug_assertion_on_empty_sliced_array; any other panic is a failure".into(),
+            "view implementation of split_with_ratio is always exercised as view().split_with_ratio(r) (view judged as its own step): linfa's signature (&'a self on DatasetBase<ArrayView2<'a,_>,_>) admits the call only in the frame that created the view".into(),
             "trusted base: ndarray, DatasetBase::new/with_weights/with_feature_names/with_target_names used to build the initial dataset".into(),
         ],
         subs: vec![
@@ -464,6 +481,7 @@ pub fn property() -> Property {
                 .chunks(16)
                 .require(&["reorder_then_select", "op:split_owned", "op:split_view", "op:with_labels", "op:one_vs_all", "op:shuffle"]),
             enum_sub("single_op_grid", |t: Tier| single_op_grid(t.pick(9, 24)), check),
+            enum_sub("from_bytes", |t: Tier| byte_cases(t.pick(4000, 40000)), check),
             enum_sub("pair_grid", |t: Tier| pair_grid(if t == Tier::Quick { &[1, 5] } else { &[1, 2, 5, 8, 13] }), check),
         ],
     }
